@@ -247,7 +247,9 @@ impl SourceView {
             let mut char_iter = line.chars().peekable();
 
             while let Some(&c) = char_iter.peek() {
-                if idx >= col as usize {
+                // stop in front of the character that covers column `col` (a column that
+                // points at the second half of a surrogate pair belongs to that pair)
+                if idx + c.len_utf16() > col as usize {
                     break;
                 }
                 char_iter.next();
